@@ -9,6 +9,9 @@ def nontrivial(req, obs):
     if f[0] == "C18.cross":
         # accepted by at least the HLSL flavours, with at least one resource and one pipeline
         return len(f) > 5 and "dx=ok" in f[5] and f[3] != "" and f[4] != ""
+    if f[0] == "C18.simplify":
+        # at least one cbuffer block in the program
+        return " cbuffer " in req
     if f[0] == "C18.pp":
         # at least one macro is defined or tested and something comes out
         return ("D " in f[3] or "IF" in f[3]) and obs.startswith("ok:") and len(obs) > 3
@@ -72,7 +75,7 @@ def search(ctx):
 
 SPEC = {
     "id": "C18",
-    "gens": ["SlotTables", "CompileTables", "TargetTables"],
+    "gens": ["SlotTables", "CompileTables", "TargetTables", "CbufferTables"],
     "lean_modules": ["RsslVerif.Thm.C18"],
     "theorems": [T + n for n in [
         "unmentioned_define_irrelevant", "target_dependent_names", "frontend_target_independent",
@@ -81,7 +84,9 @@ SPEC = {
         "build_shape_as_modelled", "dx_vk_same_stage_reports", "all_targets_same_stage_kinds_sizes",
         "dx_vk_declarations_differ_only_in_annotations_partial", "dx_register_vk_binding",
         "descriptor_tables_equal", "kind_count_from_declaration", "binding_kinds_counts_shared", "dx_vk_bindings_shared",
-        "binding_names_kinds_counts_shared_partial", "binding_names_not_shared"]],
+        "binding_names_kinds_counts_shared_partial", "binding_names_not_shared",
+        "simplify_cbuffers_as_modelled", "msl_reflects_simplified_module", "kinds_counts_shared_through_simplify",
+        "bindings_shared_through_simplify_partial", "cbuffer_block_one_binding_everywhere"]],
     "harness": "c18",
     "nontrivial": nontrivial,
     "finding_key": finding_key,
